@@ -32,12 +32,21 @@ struct Cfg {
     int entry;        // 0 (stable_)parallel_multiway_merge, 1 ..._sentinels, 2 parallel_multiway_merge_base<Stable>
     int alg;          // index into ALG
     bool sampling;    // MWMSA_SAMPLING instead of MWMSA_EXACT
-    int threads;      // 1..32
-    int oversampling; // parallel_multiway_merge_oversampling
+    int threads;      // 1..32 (scale target: 1..64)
+    int oversampling; // parallel_multiway_merge_oversampling (scale target: 1..1200)
     int gate;         // 0 force_parallel, 1 default gating (big input), 2 force_sequential, 3 custom minimal_k / minimal_n
     int mink, minn;   // for gate == 3
     bool desc;        // comparator direction
+    // ---- only used by the scale target (pmerge_scale); 0 = the classic generator, byte mapping unchanged
+    int scale = 0;    // 1 many sequences, 2 big chunks, 3 very many very short sequences, 4 sparse (threads > total)
+    int mink_rel = 0; // scale && gate == 3: minimal_k relative to the number of sequences: 0 k, 1 k+1, 2 k-1, 3 -> 1
+    int minn_rel = 0; // scale && gate == 3: minimal_n relative to the requested length: 0 length, 1 length+1, 2 length-1, 3 -> 0
 };
+
+//! scale target: upper bound on num_seqs(non-empty) * threads * oversampling (cost bound for the sampling splitter's
+//! sample array; the generator lowers the oversampling factor, then the thread count, until the product fits)
+static const long SAMPLE_BUDGET[3] = {40000, 300000, 1300000};
+static const int OS_LIST[7] = {1, 2, 10, 33, 100, 300, 1000};
 
 void run_rec_s(pbt::Source& src, const Cfg& cfg);
 void run_rec_u(pbt::Source& src, const Cfg& cfg);
@@ -244,7 +253,8 @@ static const char* const ENTRY_NAME[2][3] = {
 // ---------------------------------------------------------------- one case
 
 template <class E, bool Stable>
-void run_case(pbt::Source& src, const Cfg& cfg) {
+void run_case(pbt::Source& src, const Cfg& cfg_in) {
+    Cfg cfg = cfg_in; // the scale classes adjust threads / oversampling (cost bound) and minimal_k / minimal_n below
     using T = Tr<E>;
     using In = typename IO<E>::In;
     using Out = typename IO<E>::Out;
@@ -253,19 +263,72 @@ void run_case(pbt::Source& src, const Cfg& cfg) {
     DirCmp<E> cmp(desc);
 
     // ---- shape
-    const bool big = cfg.gate == 1; // default gating needs >= 1000 elements to reach the parallel code
-    int k = big ? 2 + (int)src.range(0, 4) : draw_k(src);
-    const int vsel = (int)src.range(0, 9); // 0..7 -> 1..8 distinct values (heavy ties); 8,9 -> wide
-    const int nvals = vsel < 8 ? vsel + 1 : 1001;
-    size_t lenmode = src.weighted({8, 6, 1, 2, 2, 3}); // total, uniform, 0, 1, total-1, around the thread count
+    const bool scale = cfg.scale != 0;
+    const bool big = !scale && cfg.gate == 1; // default gating needs >= 1000 elements to reach the parallel code
+    int k = scale ? 0 : big ? 2 + (int)src.range(0, 4) : draw_k(src);
+    int scale_lencls = 0, scale_budget = 0;
+    unsigned scale_emptyp = 0; // of 256
+    long scale_target = 0;
+    if (scale) {
+        // scale classes: the shape is (class, a few parameters, 64-bit seed) expanded with a local PRNG
+        switch (cfg.scale) {
+        case 1: // many sequences: 41..400, short to medium
+            k = (int)src.range(41, 400);
+            scale_lencls = (int)src.weighted({5, 4, 3, 2}); // 1..3 | 0..8 | 0..40 | 0..150
+            scale_emptyp = (unsigned)src.weighted({4, 2, 2}) * 38;    // 0, 15 %, 30 % empty
+            break;
+        case 2: // big chunks: 2..40 sequences, 20000..60000 elements in total
+            k = (int)src.range(2, 40);
+            scale_target = (long)src.range(20000, 60000);
+            scale_lencls = (int)src.weighted({4, 2}); // 0 equal shares +-50 % | 1 one sequence holds about half
+            scale_emptyp = src.chance(48) ? 40 : 0;
+            break;
+        case 3: // very many very short sequences
+            k = (int)src.range(1000, 3000);
+            scale_lencls = (int)src.weighted({3, 3, 2}); // 1 | 1..2 | 0..3
+            scale_emptyp = (unsigned)src.weighted({4, 2, 2}) * 38;
+            break;
+        default: // sparse: 41..400 sequences most of which are empty, total around the thread count or below
+            k = (int)src.range(41, 400);
+            scale_target = (long)src.range(1, 2 * cfg.threads);
+            break;
+        }
+        scale_budget = (int)src.weighted({3, 4, 1});
+    }
+    // classic: 0..7 -> 1..8 distinct values (heavy ties); 8,9 -> 1001 values. scale: 1001 | 2^20 | 1..8 values
+    const int vsel = scale ? (int)src.weighted({5, 5, 2, 1, 1, 1, 1, 1, 1, 1}) : (int)src.range(0, 9);
+    const int nvals = scale ? (vsel == 0 ? 1001 : vsel == 1 ? (1 << 20) : vsel - 1) : vsel < 8 ? vsel + 1 : 1001;
+    size_t lenmode = scale ? src.weighted({8, 8, 1, 1, 2, 2}) : src.weighted({8, 6, 1, 2, 2, 3}); // total, uniform, 0, 1, total-1, around the thread count
     const int sentvary = (int)src.range(0, 2);
-    const bool dominant = !big && src.chance(32);
-    const bool prng_fill = big || src.chance(48);
-    const size_t emptymode = src.weighted({5, 3, 2});
+    const bool dominant = !scale && !big && src.chance(32);
+    const bool prng_fill = scale || big || src.chance(48);
+    const size_t emptymode = scale ? 0 : src.weighted({5, 3, 2});
     const unsigned emptyp = emptymode == 0 ? 0 : emptymode == 1 ? 12 : 72;
-    uint64_t seed = (prng_fill || dominant) ? src.bits(4) : 0;
+    uint64_t seed = scale ? src.bits(8) : (prng_fill || dominant) ? src.bits(4) : 0;
+    const int scale_dom = scale ? (int)((seed >> 24) % (uint64_t)k) : -1;
     std::vector<int> n(k, 0);
     for (int i = 0; i < k; ++i) {
+        if (scale) {
+            uint64_t r = splitmix(seed);
+            const unsigned e = (unsigned)(r & 255);
+            r >>= 8;
+            if (cfg.scale == 4) { // expected total = scale_target
+                n[i] = (long)(r % (uint64_t)k) < scale_target ? 1 + (int)((r >> 32) % 8 == 0) : 0;
+                continue;
+            }
+            if (e < scale_emptyp) continue;
+            switch (cfg.scale) {
+            case 1: n[i] = scale_lencls == 0 ? 1 + (int)(r % 3) : (int)(r % (scale_lencls == 1 ? 9 : scale_lencls == 2 ? 41 : 151)); break;
+            case 2: {
+                long share = std::max<long>(1, scale_target / k);
+                n[i] = (int)(share / 2 + (long)(r % (uint64_t)(share + 1)));
+                if (scale_lencls == 1) n[i] = i == scale_dom ? (int)(scale_target / 2) : n[i] / 2;
+                break;
+            }
+            default: n[i] = scale_lencls == 0 ? 1 : scale_lencls == 1 ? 1 + (int)(r % 2) : (int)(r % 4); break;
+            }
+            continue;
+        }
         if (big) {
             n[i] = 1000 / k + (int)(splitmix(seed) % 300);
             continue;
@@ -284,6 +347,23 @@ void run_case(pbt::Source& src, const Cfg& cfg) {
     }
     std::ptrdiff_t total = 0;
     for (int i = 0; i < k; ++i) total += n[i];
+    int nonempty = 0;
+    for (int i = 0; i < k; ++i) nonempty += n[i] > 0;
+    bool os_lowered = false, threads_lowered = false;
+    if (scale && cfg.sampling && nonempty > 0) {
+        // cost bound: the sampling splitter allocates and sorts nonempty * threads(after clamping) * oversampling
+        // elements; keep that below the drawn budget by lowering the (arbitrary, legal) oversampling factor first
+        const long budget = SAMPLE_BUDGET[scale_budget];
+        long te = std::max<long>(1, std::min<long>(cfg.threads, (long)total));
+        if ((long)nonempty * te * cfg.oversampling > budget) {
+            cfg.oversampling = (int)std::max<long>(1, budget / ((long)nonempty * te));
+            os_lowered = true;
+        }
+        if ((long)nonempty * te * cfg.oversampling > budget) {
+            cfg.threads = (int)std::max<long>(2, budget / nonempty);
+            threads_lowered = true;
+        }
+    }
 
     // ---- keys: drawn, then sorted by the comparator
     std::vector<std::vector<int>> keys(k);
@@ -318,9 +398,12 @@ void run_case(pbt::Source& src, const Cfg& cfg) {
         length = std::min(total, L[src.range(0, 3)]);
     }
 
+    if (scale && cfg.gate == 3) { // custom gating thresholds right at / next to the actual number of sequences and length
+        cfg.mink = cfg.mink_rel == 0 ? k : cfg.mink_rel == 1 ? k + 1 : cfg.mink_rel == 2 ? std::max(0, k - 1) : 1;
+        cfg.minn = (int)(cfg.minn_rel == 0 ? length : cfg.minn_rel == 1 ? length + 1 : cfg.minn_rel == 2 ? std::max<std::ptrdiff_t>(0, length - 1) : 0);
+    }
+
     // ---- which path the front-ends take (replica of the documented gating), for labels / exclusion keys
-    int nonempty = 0;
-    for (int i = 0; i < k; ++i) nonempty += n[i] > 0;
     auto gate_parallel = [&]() {
         if (k == 0) return false;
         if (cfg.entry == 2) return true;
@@ -406,7 +489,8 @@ void run_case(pbt::Source& src, const Cfg& cfg) {
             if (start >= length) start = length - 1;
         }
     }
-    pbt::label(k == 0 ? "k=0" : k == 1 ? "k=1" : k == 2 ? "k=2" : k <= 4 ? "k=3..4" : "k=5..10");
+    if (!scale) pbt::label(k == 0 ? "k=0" : k == 1 ? "k=1" : k == 2 ? "k=2" : k <= 4 ? "k=3..4" : "k=5..10");
+    else pbt::label(k <= 40 ? "k=2..40" : k <= 99 ? "k=41..99" : k <= 400 ? "k=100..400" : "k=1000..3000");
     pbt::label(ALG_LABEL[cfg.alg]);
     pbt::label(stable ? "stable" : "unstable");
     pbt::label(cfg.entry == 0 ? "entry=frontend" : cfg.entry == 1 ? "entry=frontend_sentinels" : "entry=base");
@@ -415,14 +499,23 @@ void run_case(pbt::Source& src, const Cfg& cfg) {
     pbt::label(T::ident ? "type=rec/counting_out" : "type=int/raw_out");
     pbt::label(cfg.gate == 0 ? "gate=force_parallel" : cfg.gate == 1 ? "gate=default(big)" : cfg.gate == 2 ? "gate=force_sequential" : "gate=custom_min_k_n");
     pbt::label(par ? "path=parallel" : "path=sequential");
-    pbt::label(cfg.threads == 1 ? "threads=1" : cfg.threads == 2 ? "threads=2" : cfg.threads <= 4 ? "threads=3..4" : cfg.threads <= 8 ? "threads=5..8" : cfg.threads <= 16 ? "threads=9..16" : "threads=17..32");
+    pbt::label(cfg.threads == 1 ? "threads=1" : cfg.threads == 2 ? "threads=2" : cfg.threads <= 4 ? "threads=3..4" : cfg.threads <= 8 ? "threads=5..8" : cfg.threads <= 16 ? "threads=9..16" : cfg.threads <= 32 ? "threads=17..32" : cfg.threads <= 48 ? "threads=33..48" : "threads=49..64");
     if (par) {
         if (cfg.threads > total) pbt::label("threads>total");
         if (cfg.threads > length && length > 0) pbt::label("threads>length");
         if (teff == 1) pbt::label("one_thread_after_clamping");
         if (length < total) pbt::label(cfg.sampling ? "parallel_partial_sampling" : "parallel_partial_exact");
         if (length == 0) pbt::label("parallel_length=0");
-        if (cfg.sampling) pbt::label(cfg.oversampling == 1 ? "oversampling=1" : cfg.oversampling == 2 ? "oversampling=2" : cfg.oversampling == 3 ? "oversampling=3" : "oversampling=10");
+        if (cfg.sampling && !scale) pbt::label(cfg.oversampling == 1 ? "oversampling=1" : cfg.oversampling == 2 ? "oversampling=2" : cfg.oversampling == 3 ? "oversampling=3" : "oversampling=10");
+        if (cfg.sampling && scale) {
+            const int o = cfg.oversampling;
+            pbt::label(o == 1 ? "oversampling=1" : o == 2 ? "oversampling=2" : o < 10 ? "oversampling=3..9" : o == 10 ? "oversampling=10" : o < 100 ? "oversampling=11..99" : o < 300 ? "oversampling=100..299" : o < 1000 ? "oversampling=300..999" : "oversampling>=1000");
+            const long S = (long)nonempty * (long)teff * o; // size of the splitter's sample array
+            pbt::label(S <= (1 << 15) ? "samples<=2^15" : S <= (1 << 17) ? "samples=2^15..2^17" : S <= (1 << 20) ? "samples=2^17..2^20" : "samples>2^20");
+            if (os_lowered) pbt::label("oversampling_lowered_to_budget");
+            if (threads_lowered) pbt::label("threads_lowered_to_budget");
+        }
+        if (scale && length / teff >= 1000) pbt::label("chunk>=1000_per_thread");
         if (cut_dup) pbt::label("exact_rank_cuts_equal_run");
         if (cut_dup_multi) pbt::label("exact_rank_cuts_equal_run_in>=2_seqs");
     }
@@ -431,7 +524,15 @@ void run_case(pbt::Source& src, const Cfg& cfg) {
     if (nonempty < k) pbt::label("has_empty_seq");
     if (k >= 1 && nonempty == 0) pbt::label("all_seqs_empty");
     if (dominant && k > 0) pbt::label("dominant_seq");
-    if (k >= 17) pbt::label("k>=17");
+    if (k >= 17 && !scale) pbt::label("k>=17");
+    if (scale) {
+        pbt::label(cfg.scale == 1 ? "scale=many_seqs" : cfg.scale == 2 ? "scale=big_chunks" : cfg.scale == 3 ? "scale=very_many_very_short_seqs" : "scale=sparse(total~threads)");
+        pbt::label(total < 2000 ? "total<2000" : total < 20000 ? "total=2000..19999" : "total>=20000");
+        if (cfg.gate == 3 && cfg.entry != 2) {
+            pbt::label(cfg.mink <= k ? "minimal_k<=k" : "minimal_k>k");
+            pbt::label(cfg.minn <= length ? "minimal_n<=length" : "minimal_n>length");
+        }
+    }
     if (nvals > 8) pbt::label("keys_wide");
     else if (nvals == 1) pbt::label("keys_all_equal");
     else pbt::label("keys_2..8_values");
@@ -447,7 +548,8 @@ void run_case(pbt::Source& src, const Cfg& cfg) {
         else if (cfg.gate == 2) PBT_LOG("force_sequential=true");
         else PBT_LOG("minimal_k=" << cfg.mink << " minimal_n=" << cfg.minn);
         PBT_LOG(" oversampling=" << cfg.oversampling << " -> " << (par ? "parallel" : "sequential") << " path, " << teff << " thread(s) after clamping\n");
-        for (int i = 0; i < k; ++i) {
+        if (scale) PBT_LOG("  scale class " << cfg.scale << ": " << nonempty << " non-empty sequences, keys = splitmix64 % " << nvals << " (first 12 sequences shown)\n");
+        for (int i = 0; i < k && (!scale || i < 12); ++i) {
             PBT_LOG("  seq[" << i << "] n=" << n[i] << " keys:");
             for (int j = 0; j < n[i] && j < 48; ++j) PBT_LOG(" " << keys[i][j]);
             if (n[i] > 48) PBT_LOG(" ...");
@@ -479,7 +581,7 @@ void run_case(pbt::Source& src, const Cfg& cfg) {
             else PBT_LOG(" " << T::key(e));
         }
         PBT_LOG("\n  advanced by:");
-        for (int i = 0; i < k; ++i) PBT_LOG(" " << (seqs[i].first - base[i]));
+        for (int i = 0; i < k && (!scale || i < 12); ++i) PBT_LOG(" " << (seqs[i].first - base[i]));
         PBT_LOG("\n");
     }
     // every position of [0,length) written exactly once, nothing outside
